@@ -312,12 +312,13 @@ fn main() {
             let pat = s["pat"].as_str().unwrap_or("");
             let rep = s["rep"].as_str().unwrap_or("");
             let want = s["count"].as_u64();
+            let any_count = s["count"].as_str() == Some("*");
             let (nw, n) = subst::apply(&work, pat, rep).unwrap_or_else(|e| fail(format!("lost anchor: subst {name}: {e}")));
             match want {
                 Some(w) if w != n as u64 => fail(format!(
                     "lost anchor: subst {name} in {selector:?} fired {n} times, expected {w}"
                 )),
-                None if n == 0 => fail(format!("lost anchor: subst {name} in {selector:?} never fired")),
+                None if n == 0 && !any_count => fail(format!("lost anchor: subst {name} in {selector:?} never fired")),
                 _ => {}
             }
             *fired.entry(name.to_string()).or_insert(0) += n as u64;
